@@ -226,7 +226,7 @@ package components
 
 //@ func (*FileSplitter).newSplitIPFromIndex(p, basePath, splitIdx) (res)
 //@   props C19
-//@   modifies locked, new(BaseIP.path), new(BaseIP.id), new(BaseIP.auditInfo), new(FileIP.BaseIP), new(FileIP.lock), new(FileIP.SubStream), new(FileIP.doStream), new(FileIP.buffer), new(InPort.Chan), new(InPort.name), new(InPort.process), new(InPort.RemotePorts), new(InPort.ready), new(map[string]*OutPort), new(chan)
+//@   modifies fresh, locked
 //@   assumes named-by-index: res.path == splitPathOf(basePath, splitIdx)
 //@   ensures valid: validIP(res) && fresh(res) && !res.doStream && len(res.path) > 0
 //@   ensures logs-kept: fwN == old(fwN) && fwAt == old(fwAt) && outN == old(outN) && outAt == old(outAt) && scanPos == old(scanPos)
